@@ -180,16 +180,18 @@ PROPS["C18"] = dict(
 
 PROPS["C05"] = dict(
     level="proof",
-    verus=["c05_optimizer", "c04_partition", "c02_regex"],
+    verus=["c05_optimizer", "c05_grouping", "c04_partition", "c02_regex"],
     labels=["C05.", "C02.regex."] + MASK,
     kani=[],
     trusted=["core::fmt: for a fixed format string the key is an injective function of the formatted arguments (R6 lift of format!)",
              "Iterator::any/all over a slice (vf_iter shim)", "raw_line join (debug text only)",
-             "NetworkFilterList::optimize bucket rewrite (Arc::try_unwrap / drain) and apply_optimisation regrouping are not under contract",
-             "any-of law of the matcher for fused patterns (bounded in C02)"],
+             "NetworkFilterList::optimize bucket rewrite (Arc::try_unwrap / drain) is not under contract",
+             "apply_optimisation (unit c05_grouping): itertools partition_map = the two order-preserving halves, insert_dup = append under the key, HashMap::into_iter = the entries each once (R5 lifts); generic parameter specialised to SimplePatternGroup (R3); select / key / fusion enter as the abstract contracts of unit c05_optimizer",
+             "any-of law of the matcher for fused patterns: the plain/anchored matchers test `any` pattern (unit c02_matchers) and a fused regex is the regex set of exactly the members' translations (unit c02_regex); the lemma joining them is not mechanised"],
     assumptions=[],
     level_text="Verus proves that only rules without domains/hostname anchor/redirect/csp are eligible, that two rules with equal grouping keys agree on mask and tag "
                "(self-composition of the real key expression), that fusion keeps every non-pattern field of the first member, sets the regex bits to the disjunction and carries exactly the members' patterns, "
+               "that apply_optimisation fuses exactly the key groups of several selected rules, each into one rule built from that whole group, and returns every other rule unchanged (none lost, none both fused and kept), "
                "and that the removeparam list is never optimised",
     level_note="the per-bucket rewrite in NetworkFilterList::optimize is trusted; fuse-equivalence relies on the matcher's any-of law",
     design_ref="DESIGN.md section 4, C05",
